@@ -151,7 +151,7 @@ class DynBaseRefDict(RefDict):
                         if value.is_defined():
                             return value
                         else:
-                            return value.direct_bases[0]
+                            return value.bases[0]
 
                     elif value.refmode == "relative":
                         raise ValueError(
@@ -1935,10 +1935,11 @@ class UserSpaceImpl(*_user_space_impl_base):
                       is_relative):
         ref = self.own_refs[name]
         self.on_del_ref(name)
-        self.on_create_ref(name, value, is_derived, refmode)
+        newref = self.on_create_ref(name, value, is_derived, refmode)
+        newref.is_relative = is_relative
         self.model.clear_attr_referrers(ref)
         self.change_dynsub_refs(name)
-        return ref
+        return newref
 
     def on_create_ref(self, name, value, is_derived, refmode):
         ref = ReferenceImpl(self, name, value,
